@@ -47,6 +47,9 @@ fn main() {
                 println!("vm={} captures_len={} names={:?}", frv::engine::is_vm(&re), re.captures_len(), re.capture_names().collect::<Vec<_>>());
                 println!("{}", frv::engine::debug_listing(&re));
                 for pos in frv::engine::char_offsets(&text) {
+                    fancy_regex::verif_hooks::reset_run_stats();
+                    let _ = frv::engine::find_from_pos(&re, &text, pos);
+                    println!("stats from {}: {:?}", pos, fancy_regex::verif_hooks::last_run_stats());
                     println!("from {}: find={} caps={}", pos, frv::engine::find_from_pos(&re, &text, pos).show(), frv::engine::captures_from_pos(&re, &text, pos).show());
                 }
                 println!("find_iter={}", frv::engine::find_iter_spans(&re, &text, 50).show());
